@@ -170,7 +170,7 @@ class AdapterProp(core.Prop):
             "AssertionError), steered by the manager's done set towards 'name an agent that is already done, then "
             "step, then keep stepping' (the fake-step path), before the first reset, mid-episode, after LAST, with "
             "explicit resets, ill-formed action lists and a second wrapper in the same process; judged by "
-            "specC15X (the property) - specC15Xw is what is proved of the model")
+            "specC15X (this stream found C15-K1, repaired: the fake step named a done agent)")
     assumptions = ["TimeStep/StepType containers of open_spiel are compared field by field, not modelled",
                    "discounts are constants and not compared"]
 
@@ -346,28 +346,10 @@ class AdapterProp(core.Prop):
                                                                  p_bad=0.02 if rng.random() < 0.3 else 0.0))
 
     def interpret(self, reply, case):
-        if case.desc["adapter"] == "ospielx":
-            # (modelTrace, specC15Xw on the model = the proved predicate, specC15X on the implementation = the
-            #  property, specC15Xw on the implementation)
-            model, ms, is_, iw = reply
-            if is_ not in (0, 1) or iw not in (0, 1):
-                raise ValueError("driver could not parse the implementation trace")
-            return core.Verdict(wire.enc(model), ms == 1, is_ == 1, detail={"specC15Xw_on_impl": iw == 1})
         model, ms, is_ = reply
         if is_ not in (0, 1):
             raise ValueError("driver could not parse the implementation trace")
         return core.Verdict(wire.enc(model), ms == 1, is_ == 1)
-
-    def finding_matchers(self):
-        def c15_k1(case, v):
-            """turn-based play with the setter; the implementation's trace is exactly the model's; the property
-            (specC15X) is false and the only false conjunct is the current player named by a fake step
-            (specC15Xw, which merely pins it to the first learning agent, holds)"""
-            d = case.desc
-            return (d["adapter"] == "ospielx" and d["kind"] == 1 and any(c[0] == "p" for c in d["calls"])
-                    and v.impl_spec is False and bool(v.detail) and v.detail.get("specC15Xw_on_impl") is True
-                    and v.model == case.impl)
-        return {"C15-K1": c15_k1}
 
     def shrink_candidates(self, desc):
         calls = desc["calls"]
